@@ -284,7 +284,7 @@ CHECKS = {
         "manifest": {
             "engine": "object-heap",
             "design_ref": "DESIGN.md section 3, engines A and B (C19 facet), Appendix A",
-            "level_text": "Fault kind 'malformed request' injected into the histories of engine A (indexing on a dense+sparse pair: value count != subscript count, too few subscript columns, linear write beyond the extent, region right-hand side of the wrong shape, negative entries in a sparse subscript array) and engine B (106 recipes across all classes, module functions and algorithm entry points: shape mismatches between heap operands of different shapes, wrong-length vectors, wrong-size matrices, factor lists of the wrong length / column / row count, mode arguments out of range / negative / repeated / dims together with exclude_dims, non-permutations, element-count-changing reshapes, inconsistent constructor components, bad algorithm options). Oracle: the call raises AND every live object on the heap is bit-identical to its snapshot afterwards; the history then continues, so a partial mutation that is invisible at once is caught by later steps. Each recipe re-establishes from the actual operands that the request really violates the precondition.",
+            "level_text": "Fault kind 'malformed request' injected into the histories of engine A (indexing on a dense+sparse pair: value count != subscript count, too few subscript columns, linear write beyond the extent, region right-hand side of the wrong shape, negative entries in a sparse subscript array) and engine B (111 recipes across all classes, module functions and algorithm entry points: shape mismatches between heap operands of different shapes, wrong-length vectors, wrong-size matrices, factor lists of the wrong length / column / row count, mode arguments out of range / negative / repeated / dims together with exclude_dims, non-permutations, element-count-changing reshapes, inconsistent constructor components, bad algorithm options). Oracle: the call raises AND every live object on the heap is bit-identical to its snapshot afterwards; the history then continues, so a partial mutation that is invisible at once is caught by later steps. Each recipe re-establishes from the actual operands that the request really violates the precondition.",
             "level_note": "Only violations that C19's statement names are injected. Trusted: the recipes' malformedness predicates (sim/catalog_b_bad.py), the snapshot model. The plain sptensor constructor documents 'no validation' apart from subscripts fitting the shape, so only that is a recipe.",
             "technique": "deterministic simulation: malformed-request fault injection into seeded object histories; oracle = rejected and all live state unchanged",
         },
